@@ -79,8 +79,24 @@ def run_reader(stream: bytes, cfg: dict, cuts: tuple, check_mem: bool = True):
             if held > bound:
                 raise Violation("memory-bound", f"{held} bytes retained for an incomplete message > max_msg_size {mx} + 14 + 125 + segment {len(seg)}")
             worst = max(worst, held)
+    # what a consumer gets: through the queue's read() (nothing is awaited here: read() only waits on an empty,
+    # still-open queue, and then it is not called)
+    delivered = []
+    while q._buffer or q.exception() is not None:
+        coro = q.read()
+        try:
+            coro.send(None)
+        except StopIteration as si:
+            delivered.append(si.value)
+            continue
+        except BaseException as e:  # noqa: BLE001 - the latched error (or EofStream) ends the stream for the consumer
+            if e is not q.exception():
+                raise Violation("consumer-sees-other-error", f"read() raised {e!r}, the reader had recorded {q.exception()!r}")
+            break
+        coro.close()
+        raise Violation("consumer-would-block", f"read() waits although {len(q._buffer)} message(s) are queued / an error is recorded")
     msgs = []
-    for m in q._buffer:
+    for m in delivered:
         t = m.type
         if t == WSMsgType.TEXT:
             msgs.append(("text", m.data if isinstance(m.data, str) else bytes(m.data)))
